@@ -16,7 +16,8 @@ DRIVERS = {
     "C06": ("gbv.props.fields", {}), "C15": ("gbv.props.fields", {}),
     "C14": ("gbv.props.c14", {}), "C20": ("gbv.props.c20", {}),
     "C18": ("gbv.props.c18", {}), "C19": ("gbv.props.c19", {}),
-    "C12": ("gbv.props.c12", {}),
+    "C16": ("gbv.props.gram", {}), "C17": ("gbv.props.gram", {}),
+    "C12": ("gbv.props.c12", {}), "C11": ("gbv.props.meta", {}), "C13": ("gbv.props.meta", {}),
     "C08": ("gbv.props.sep", {}),
     "C09": ("gbv.props.c09", {}),
     "C10": ("gbv.props.c10", {}),
